@@ -630,3 +630,113 @@ def kind_checks_rule(ctx, rule):
            len(part) == 1 and all(not cfg.exists_path(cfg.node_of(w), cfg.node_of(part[0])) for w in writers),
            'a directory name that does not parse under the partition\'s recorded type makes the dataset fall back to drill '
            'parsing on the next open (the partition column disappears)', api.loc(f))
+
+
+def single_file_route_rule(ctx, rule):
+    """An existing dataset is appended to through the single-file writer exactly when it IS a single file: scheme
+    'simple', or an empty one whose handle is not a summary file (name ending in `_metadata`); everything else goes
+    through the multi-file writer (and `overwrite` refuses exactly the single-file case).  The test may be spelled in
+    any equivalent way (`in (..)`, a property, nested); it is compared as a formula over three facts."""
+    import re as _re
+    from .. import pathcond as pc
+    api, wr = ctx.repo['api'], ctx.repo['writer']
+    S, E, M = ('atom', 'S', frozenset()), ('atom', 'E', frozenset()), ('atom', 'M', frozenset())
+    want = pc._or([S, pc._and([E, pc._neg(M)])])
+
+    def facts(x, recv):
+        k = x[0]
+        if k == 'atom':
+            t = x[1]
+            if t in ("'simple' == %s.file_scheme" % recv, "%s.file_scheme == 'simple'" % recv):
+                return S
+            if t in ("'empty' == %s.file_scheme" % recv, "%s.file_scheme == 'empty'" % recv):
+                return E
+            if t in ("'_metadata' == %s.fn[-9:]" % recv, "%s.fn[-9:] == '_metadata'" % recv, "%s.fn.endswith('_metadata')" % recv):
+                return M
+            return ('atom', t, frozenset())
+        if k == 'not':
+            return pc._neg(facts(x[1], recv))
+        if k in ('and', 'or'):
+            return (pc._and if k == 'and' else pc._or)([facts(y, recv) for y in x[1]])
+        return x
+    f = api.func('ParquetFile.write_row_groups')
+    r = pc.reach(f)
+    calls = [st for st in iter_child_stmts(f.body) if isinstance(st, ast.Expr) and isinstance(st.value, ast.Call) and callee(st.value) in ('write_simple', 'write_multi')]
+    ctx.floor(rule, 'writer calls in write_row_groups', len(calls), 2)
+    # the part of the reach condition that speaks about the scheme (earlier guard clauses of the checks above it drop out:
+    # they are the same for both calls)
+    by = {callee(st.value): pc._strip(r[id(st)]) for st in calls}
+    simple_c, multi_c = facts(by.get('write_simple', pc.F), 'self'), facts(by.get('write_multi', pc.F), 'self')
+    common = pc.atoms(simple_c) & pc.atoms(multi_c) - {'S', 'E', 'M'}
+    env_ok = True
+    import itertools
+    names = sorted(pc.atoms(simple_c) | pc.atoms(multi_c) | {'S', 'E', 'M'})
+    ok_s = ok_m = len(names) <= 14
+    if ok_s:
+        for vals in itertools.product((False, True), repeat=len(names)):
+            e_ = dict(zip(names, vals))
+            if e_['S'] and e_['E']:
+                continue          # (a scheme is one thing)
+            a, b = pc._eval(simple_c, e_), pc._eval(multi_c, e_)
+            if not (a or b):
+                continue          # (a refusal above the route decision: neither writer is reached)
+            w = pc._eval(want, e_)
+            if a != w:
+                ok_s = False
+            if b != (not w):
+                ok_m = False
+    ctx.ob(rule, 'api.write_row_groups:single-file-writer-exactly-for-a-single-file', ok_s,
+           'write_simple is reached under %s; wanted: simple, or empty and not a summary file' % pc.dumps(simple_c)[:200], api.loc(f))
+    ctx.ob(rule, 'api.write_row_groups:multi-file-writer-for-everything-else', ok_m,
+           'write_multi is reached under %s' % pc.dumps(multi_c)[:200], api.loc(f))
+    g = wr.func('overwrite')
+    refus = [x for x in iter_child_stmts(g.body) if isinstance(x, ast.If) and any(isinstance(y, ast.Raise) for y in x.body)
+             and 'simple' in norm(x.test)]
+    ok = len(refus) == 1
+    d = ''
+    if ok:
+        c = facts(pc._strip(pc.formula(refus[0].test)), 'pf')
+        d = pc.dumps(c)[:200]
+        nm = sorted(pc.atoms(c) | {'S', 'E', 'M'})
+        ok = len(nm) <= 14 and all(pc._eval(c, dict(zip(nm, v))) == pc._eval(want, dict(zip(nm, v)))
+                                   for v in itertools.product((False, True), repeat=len(nm)) if not (dict(zip(nm, v))['S'] and dict(zip(nm, v))['E']))
+    ctx.ob(rule, 'writer.overwrite:refuses-exactly-the-single-file-case', ok, d, wr.loc(g))
+
+
+MEMO_READS = ('categories', 'key_value_metadata', 'pandas_metadata', 'dtypes', '_dtypes', 'check_categories')
+
+
+def forget_then_rebuild_rule(ctx, rule):
+    """After the row groups of a handle changed (append / removal) what was derived from the old ones is voided
+    (`_base_dtype = _kvm = _pdm = _categories = None`) and the handle rebuilt (`_set_attrs()`).  Between the two nothing
+    may read a memoised property (that would fill the cache again from the old state) and no writer may still run:
+    the reset belongs after the last write, directly before the rebuild."""
+    api = ctx.repo['api']
+    for q in ('ParquetFile.write_row_groups', 'ParquetFile.remove_row_groups'):
+        f = api.func(q)
+        cfg = CFG(f)
+        resets = [st for st in iter_child_stmts(f.body) if isinstance(st, ast.Assign) and any(norm(t) == 'self._categories' for t in st.targets)
+                  and isinstance(st.value, ast.Constant) and st.value.value is None]
+        rebuilds = [st for st in iter_child_stmts(f.body) if isinstance(st, ast.Expr) and isinstance(st.value, ast.Call) and callee(st.value) == 'self._set_attrs']
+        ctx.ob(rule, 'api.%s:derived-state-voided-and-handle-rebuilt' % q.split('.')[-1], bool(resets) and bool(rebuilds),
+               '%d reset(s), %d rebuild(s)' % (len(resets), len(rebuilds)), api.loc(f))
+        if not resets or not rebuilds:
+            continue
+        stop = {cfg.node_of(x) for x in rebuilds}
+        for rs in resets:
+            between = cfg.reach(cfg.succ[cfg.node_of(rs)], avoid=stop)
+            bad = []
+            for n in between:
+                st = cfg.nodes[n].stmt
+                if st is None:
+                    continue
+                from ..cfg import header_exprs
+                for e in header_exprs(st):
+                    for y in ast.walk(e):
+                        if isinstance(y, ast.Attribute) and isinstance(y.value, ast.Name) and y.value.id == 'self' and y.attr in MEMO_READS and isinstance(y.ctx, ast.Load):
+                            bad.append('reads self.%s' % y.attr)
+                        if isinstance(y, ast.Call) and callee(y) in ('write_simple', 'write_multi'):
+                            bad.append('calls %s' % callee(y))
+            reaches = any(cfg.exists_path(cfg.node_of(rs), s_) for s_ in stop)
+            ctx.ob(rule, 'api.%s:nothing-between-the-reset-and-the-rebuild' % q.split('.')[-1], reaches and not bad,
+                   'after `%s` and before `_set_attrs()`: %s' % (norm(rs)[:50], sorted(set(bad)) or ('the rebuild is not reached' if not reaches else 'nothing')), api.loc(rs))
